@@ -102,6 +102,50 @@ Proof.
   rewrite (only_in_quarantine_false _ _ _ _ _ _ Hk Hg) in Hc2. discriminate.
 Qed.
 
+(** clause 4: NOT_FOUND is only answered when no lookup key resolves *)
+Lemma ocn_put_err_not_5 c s size e s' : ocn_put c s size = (Err e, s') -> e <> cNotFound.
+Proof.
+  unfold ocn_put, find_block_with_space.
+  destruct (c_bs c <? size)%N; [intros H; inversion H; discriminate|].
+  destruct (fbs_grow _ _ _) as [[|] s2].
+  - destruct (fbs_rotate _ _ _ _) as [[|] s3].
+    + destruct (fbs_pick _ _ _ _) as [[idx s4]|].
+      * destruct (nth_error _ _); intros H; inversion H; discriminate.
+      * intros H; inversion H; discriminate.
+    + intros H; inversion H; discriminate.
+  - intros H; inversion H; discriminate.
+Qed.
+
+Lemma open_with_refresh_err_not_5 w s o l fk e s' :
+  open_with_refresh w s o l fk = (Err e, s') -> e <> cNotFound.
+Proof.
+  unfold open_with_refresh. destruct (block_of_loc s l) as [b|]; [|intros H; inversion H; discriminate].
+  destruct (needs_refresh s l); [|intros H; discriminate].
+  destruct (ocn_put _ _ _) as [[wr|e0] s2] eqn:E.
+  - destruct (lockstep _); [intros H; discriminate|].
+    destruct (finalize _ _ _ _) as [[nl|e1] s4] eqn:F; [intros H; discriminate|].
+    intros H; inversion H; subst. unfold finalize in F. cbn [negb] in F.
+    destruct (wr_abs wr <? s_tbr _)%N; inversion F; discriminate.
+  - intros H; inversion H; subst. eapply ocn_put_err_not_5; eauto.
+Qed.
+
+Lemma v4_get_silent w s0 tid ob i s1 b :
+  step w s0 (OGetOpen tid ob i) = (s1, Done cNotFound b) ->
+  match least_specific s0 (lookup_keys w ob i) with Some _ => true | None => false end = false.
+Proof.
+  unfold step. cbn [may_take_refresh_lock is_corrupt andb].
+  destruct (thr_get (s_threads s0) tid); [intros H; discriminate|].
+  destruct (get_open w s0 ob i) as [[t|e] s'] eqn:G; [intros H; discriminate|].
+  intros H; inversion H; subst e. clear H.
+  unfold get_open in G. destruct (least_specific s0 (lookup_keys w ob i)) as [[k l]|]; [|reflexivity].
+  exfalso.
+  destruct (negb (needs_refresh s0 l)).
+  - eapply open_with_refresh_err_not_5; eauto.
+  - destruct (c_hier (w_cfg w)).
+    + destruct (sync_from_canonical s0 ob k) as [[cl s1']|]; eapply open_with_refresh_err_not_5; eauto.
+    + eapply open_with_refresh_err_not_5; eauto.
+Qed.
+
 (** clause 3: an upload into a quarantined block is not acknowledged *)
 Lemma v3_silent w s0 e tid s1 mo o i wr acc :
   (exists err, e = OPutEnd tid err) \/ (exists d, e = OPutChunk tid d) ->
@@ -132,8 +176,12 @@ Proof.
     destruct (thr_get (s_threads s0) tid) as [[o i wr acc| | | |]|] eqn:Ht; try reflexivity.
     rewrite (v3_silent w s0 _ tid s1 mo o i wr acc (or_introl (ex_intro _ err eq_refl)) H Ht). reflexivity.
   - (* OGetOpen *)
-    rewrite ob_kind_enc. destruct mo; cbn [Z.eqb andb snd app]; try reflexivity.
-    rewrite (v1_get_silent _ _ _ _ _ _ H). reflexivity.
+    rewrite ob_kind_enc, ob_code_enc. destruct mo as [code b| |code m|]; cbn [Z.eqb andb snd app]; try reflexivity.
+    + (* Done: clause 4 *)
+      destruct (Z.eqb_spec code cNotFound) as [->|]; cbn [andb app]; [|reflexivity].
+      destruct (Nat.ltb 0 (s_negs s0)); cbn [andb app]; [|reflexivity].
+      rewrite (v4_get_silent _ _ _ _ _ _ _ H). reflexivity.
+    + rewrite (v1_get_silent _ _ _ _ _ _ H). reflexivity.
   - (* OFindMissing *)
     rewrite ob_kind_enc, ob_code_enc. destruct mo as [| |code m|]; cbn [Z.eqb andb snd app]; try reflexivity.
     destruct (Z.eqb_spec code 0); cbn [snd app]; [|reflexivity]. subst code.
